@@ -239,12 +239,21 @@ ViolatorClass(S) ==
       ELSE IF \A p \in V : adj(p) THEN "adjacent-only"
       ELSE IF \E p \in V : adj(p) THEN "mixed"
       ELSE "nonlocal-only"
+\* A failed empty-circumsphere conjunct in D >= 4 whose violators include a facet-adjacent
+\* (mutual) pair is the signature of the open finding KF-D4 (DESIGN.md 7-a).  It is REPORTED
+\* (a WAIVED line carrying the trace line number from TLC register 8, turned into a KNOWN-FINDING
+\* or, if no open finding matches, a VIOLATION by ./check) but does not stop the validation of
+\* the rest of the history.  Everything else fails the conjunct.
 ChkNSI(name, S) ==
   IF NoStrictlyInside(S) THEN TRUE
-  ELSE /\ PrintT(<<"CONTRACT-FAIL", name>>)
-       /\ PrintT(<<"DIAG", "violators", ViolatorClass(S)>>)
-       /\ PrintT(<<"DIAG", "convex", IF EmbConvex(S) THEN "yes" ELSE "no">>)
-       /\ FALSE
+  ELSE LET cls == ViolatorClass(S)
+           cvx == IF EmbConvex(S) THEN "yes" ELSE "no"
+       IN  IF S.D >= 4 /\ cls \in {"adjacent-only", "mixed"}
+           THEN PrintT(<<"WAIVED", TLCGet(8), name, cls, cvx>>)
+           ELSE /\ PrintT(<<"CONTRACT-FAIL", name>>)
+                /\ PrintT(<<"DIAG", "violators", cls>>)
+                /\ PrintT(<<"DIAG", "convex", cvx>>)
+                /\ FALSE
 
 \* General position of the home coordinates: no D+1 points on a hyperplane,
 \* no D+2 points on a sphere.
@@ -420,12 +429,19 @@ Flip(pre, a, r, post) ==
 \* ---- C08 : flip-based repair ------------------------------------------------
 \* default_max_flips transcribed from src/core/algorithms/flips.rs
 RepairOK(pre, a, r, post) ==
-  /\ Chk("C08.same vertices", SameVertexRecords(pre, post))
+  \* the heuristic rebuild re-inserts every vertex and may displace one by the documented
+  \* perturbation; otherwise the records are identical
+  /\ Chk("C08.same vertices",
+         IF r.heuristic
+         THEN {[id |-> x.id, m |-> x.m, data |-> x.data] : x \in VRecs(pre)}
+              = {[id |-> x.id, m |-> x.m, data |-> x.data] : x \in VRecs(post)}
+              /\ \A x \in VRecs(post) : ~x.pert \/ x.dok
+         ELSE SameVertexRecords(pre, post))
   /\ Chk("C08.policies unchanged", post.cfg = pre.cfg)
   /\ ValidStack(post, post.cfg.g)
   /\ ChkNSI("C08.empty circumspheres", post)
   /\ Chk("C08.general position => the Delaunay triangulation",
-         Len(post.verts) <= a.gpmax /\ EmbeddedQ(pre) /\ GeneralPosition(post)
+         Len(post.verts) <= a.gpmax /\ NoStrictlyInside(post) /\ EmbeddedQ(pre) /\ GeneralPosition(post)
            => K(post) = DelaunayCells(post))
 
 Repair(pre, a, r, post) ==
